@@ -255,6 +255,11 @@ def op_table(o: Operands, subset=False):
     add("getitem", "x[None]", lambda: x[None])
     add("getitem", "x[adv [0,e-1,1]]", lambda: x[sl(np.array([0, e - 1, 1]))])
     add("getitem", "x[adv [e-1,0]]", lambda: x[sl([e - 1, 0])])
+    # an index array with more entries than the index type can count: the RESULT axis outgrows the operands' type
+    for kk in ((L + 2,) if subset else (L, L + 1, L + 2)):
+        add("getitem", f"x[adv long {kk}]", lambda kk=kk: x[sl(np.arange(kk) % e)])
+        add("getitem", f"x[adv long {kk} ax0]", lambda kk=kk: x[np.arange(kk) % o.shape[0]], ax != 0 and not subset)
+        add("getitem", f"dok[adv long {kk}]", lambda kk=kk: x.asformat("dok")[sl(np.arange(kk) % e)].asformat("coo"), nd <= 2 and o.nnz <= 2000 and not subset)
     add("getitem", "x[::-1,::-1]", lambda: x[::-1, ::-1], nd >= 2)
     add("getitem", "x[1:, :-1]", lambda: x[1:, :-1], nd >= 2)
     add("getitem", "x[bool mask]", lambda: x[sl(np.arange(e) % 2 == 0)], e <= 70000)
@@ -423,6 +428,8 @@ def op_table(o: Operands, subset=False):
             add("gcxs-getitem", f"{tag}[..., 0]", lambda G=G: G()[0][..., 0])
             add("gcxs-getitem", f"{tag}[..., -1]", lambda G=G: G()[0][..., -1], not subset)
             add("gcxs-getitem", f"{tag}[0, ..., -1]", lambda G=G: G()[0][0, ..., -1], nd >= 3)
+            add("gcxs-getitem", f"{tag}[adv long]", lambda G=G: G()[0][sl(np.arange(L + 2) % e)])
+            add("gcxs-getitem", f"{tag}[adv long ax0]", lambda G=G: G()[0][np.arange(L + 2) % o.shape[0]], ax != 0)
             add("gcxs-getitem", f"{tag}[all ints]", lambda G=G: G()[0][tuple(int(v) for v in o.coords[:, -1])])
             add("gcxs-shape", f"{tag}.T", lambda G=G: G()[0].T)
             add("gcxs-shape", f"{tag}.reshape(-1)", lambda G=G: G()[0].reshape((-1,)))
